@@ -28,6 +28,7 @@ func CfgFromEnv(env *drive.Env) Cfg {
 	c.WithdrawDelay = uint64(env.OptInt("wdelay", int(c.WithdrawDelay)))
 	c.Pool = int64(env.OptInt("pool", int(c.Pool)))
 	c.GasLimit = uint64(env.OptInt("gaslimit", int(c.GasLimit)))
+	c.StartV4 = env.OptInt("v4", 0) == 1
 	return c
 }
 
